@@ -137,23 +137,11 @@ Definition ref_response (q : request) (cands : list (option target)) : response 
 Definition somes {A} (l : list (option A)) : list A :=
   flat_map (fun o => match o with Some a => [a] | None => [] end) l.
 
-(* finding region 4: the redirect option overflowed int and strconv.Atoi's saturated value
-   (MaxInt64 / MinInt64) was left in RedirectCode *)
-Definition region_bad_code (cands : list (option target)) : bool :=
-  existsb (fun t => (t_code t =? max_int)%Z || (t_code t =? min_int)%Z) (somes cands).
 (* finding region 3: the request carries no X-Forwarded-Proto header and some candidate
    redirect points back at it (its scheme is known from the listener only) *)
 Definition region_no_xfp (q : request) (cands : list (option target)) : bool :=
   is_nil (q_xfp q)
   && existsb (fun t => negb (t_code t =? 0)%Z && points_back (build_redirect_url t q) q) (somes cands).
-(* finding region 2: every remaining host was skipped or has no route and the last
-   skipped redirect is returned all the same *)
-Definition region_last_skipped (q : request) (cands : list (option target)) : bool :=
-  match fst (lookup q cands) with
-  | Some t => negb (t_code t =? 0)%Z && is_self (build_redirect_url t q) q
-  | None => false
-  end.
-
-(* redirect option: what the documentation promises *)
+(* an option text on which strconv.Atoi reports a range error (the repaired finding F-C13-5) *)
 Definition code_overflows (opt : str) : bool :=
   let '(v, ok) := atoi opt in negb ok && negb (v =? 0)%Z.
